@@ -339,7 +339,7 @@ def rule_r2_r3(p, res):
             if q not in omap:
                 r3.violation(chain[0], uses[0], "%s: constructor option `%s` is used to fit but never stored on self, so set_target cannot honour it" % (cls.name, q))
                 continue
-            derived = _derived_attrs(p, cls, chain, omap[q])
+            derived = _derived_attrs(p, cls, chain, omap[q], q)
             r3.check(bool(derived & refit_reads), sync, sync.node,
                      "%s: option `%s` is stored as self.%s but the re-fit reads none of %s: retargeting ignores the option"
                      % (cls.name, q, omap[q], sorted(derived)), {"class": cls.name, "option": q, "read_by_refit": sorted(derived & refit_reads)})
@@ -396,8 +396,9 @@ def _refit_attr_reads(p, sync, cls):
     return _self_reads(p, sync, cls)
 
 
-def _derived_attrs(p, cls, chain, attr):
-    """attributes of self whose stored value (in the __init__ chain) derives from self.<attr>"""
+def _derived_attrs(p, cls, chain, attr, option=None):
+    """attributes of self whose stored value (in the __init__ chain) derives from self.<attr> (or from the constructor
+    parameter `option` that self.<attr> is a copy of)"""
     out = {attr}
     changed = True
     stores = []
@@ -410,7 +411,7 @@ def _derived_attrs(p, cls, chain, attr):
         for a, lv in stores:
             if a in out:
                 continue
-            if any(l == "self." + x or l.startswith("self." + x + ".") for x in out for l in lv):
+            if any(l == "self." + x or l.startswith("self." + x + ".") for x in out for l in lv) or (option is not None and ("param:" + option) in lv):
                 out.add(a)
                 changed = True
     return out
